@@ -210,6 +210,15 @@ func c17Nested() map[string]any {
 		"st":   S1{Name: "n", Count: 3, secret: "sec", Tagged: "tg", Inner: S2{9, "y"}, PInner: &S2{4, "p"}, hidden: 5, Items: []int{5, 6}, Flag: true, Ratio: 1.5, Small: 0, Meta: map[string]any{"a": "b"}},
 		"ps":   &S2{X: 1, Y: "ptr"},
 		"np":   (*S2)(nil),
+		// pointers to pointers, pointers to containers, and a chain that ends in nil: every level is followed
+		"pps":   func() any { p := &S2{X: 11, Y: "pp"}; return &p }(),
+		"ppps":  func() any { p := &S2{X: 12, Y: "ppp"}; q := &p; return &q }(),
+		"ppnil": func() any { var p *S2; return &p }(),
+		"pm":    func() any { m := map[string]any{"k": "pmk", "l": []any{"x"}}; return &m }(),
+		"ppm":   func() any { m := map[string]any{"k": "ppmk"}; p := &m; return &p }(),
+		"psl":   func() any { l := []int{4, 5}; return &l }(),
+		"ppsl":  func() any { l := []string{"u", "v"}; p := &l; return &p }(),
+		"pst":   func() any { x := S1{Name: "deep", PInner: &S2{6, "dp"}}; p := &x; return &p }(),
 		"s3":   S3{Title: "title", Name: "goname", N: 0},
 		"name": "scope-name",
 		"zero": 0,
@@ -231,6 +240,8 @@ func c17Roots() []func() any {
 		func() any { return map[string]any{"a": "root-a", "name": "root-name-map"} },
 		func() any { return s1() },
 		func() any { x := s1(); return &x },
+		func() any { x := s1(); p := &x; return &p },
+		func() any { m := map[string]any{"a": "root-pa", "name": "root-pn"}; return &m },
 		func() any { return S3{Title: "t", Name: "gn", N: 2} },
 		func() any { return S2{X: 5, Y: "why"} },
 		func() any { return map[c17Lang]string{"a": "root-la", "name": "root-ln", "k": "root-lk"} },
@@ -248,7 +259,7 @@ func c17Roots() []func() any {
 	}
 }
 
-var c17Steps = []string{".k", ".missing", "[0]", "[1]", "[5]", "[-1]", ".0", ".1", "['k']", "[\"k\"]", ".Name", ".name", ".secret", ".hid", ".x", ".X", ".Y", ".inner", ".Inner", ".pinner", ".PInner",
+var c17Steps = []string{".k", ".missing", ".X", ".Y", ".PInner.Y", ".l[0]", "[0]", "[1]", "[5]", "[-1]", ".0", ".1", "['k']", "[\"k\"]", ".Name", ".name", ".secret", ".hid", ".x", ".X", ".Y", ".inner", ".Inner", ".pinner", ".PInner",
 	".l", ".l[2].z", ".one", ".items", ".Items[0]", " .k ", "..k", "[", "[]", "[ 0 ]", ".s", ".nil", ".Meta.a", ".tag_only", ".Title", ".n", ".a",
 	".Created", ".created", ".ID", ".Base", ".Base.Created", ".Base.ID", ".note", ".title", ".art.Created", ".art.ID", ".art.Base.ID", ".list[0].Created", ".p5.Created", ".n5.Created", ".n5.Title", ".art.created", ".n5.created", ".p5.created", ".n5.ID", ".n5.Base", ".n5.Base.Created", ".n5.note", ".list[0].created",
 	"[-3]", "[-100]", ".l[-1]", ".l[-9]", ".items[-1]", ".Items[-2]", ".2024", "['2024']", "[2024]", "[\"2024\"]", ".404[0]", "['404'][1]", ".404.1", ".ok[0]", ".7.1", "[7][1]", ".10", "[10]", ".2025", ".-1", "['-1']"}
